@@ -398,27 +398,29 @@ impl PublishBuilder {
         async move { rx?.await.map(Ack::publish).map_err(|_| SendPacketError::Disconnected) }
     }
 
-    async fn stream_at_least_once_inner(
+    fn stream_at_least_once_inner(
         mut self,
         tx: pool::Sender<()>,
         chunk: Option<Bytes>,
-    ) -> Result<codec::PublishAck, SendPacketError> {
+    ) -> impl Future<Output = Result<codec::PublishAck, SendPacketError>> {
         // packet id
         let idx = self.shared.set_publish_id(&mut self.packet);
 
-        // send publish to client
+        // send publish to client; the window slot is taken right away, the readiness check
+        // made by the caller must not be separated from it by a suspension point
         log::trace!("Publish (QoS1) to {:#?}", self.packet);
 
-        if tx.is_canceled() {
+        let rx = if tx.is_canceled() {
             Err(SendPacketError::StreamingCancelled)
         } else {
             // the stream may start only if the publish header has been written
-            let rx =
-                self.shared.wait_publish_response(idx, AckType::Publish, self.packet, chunk)?;
-            let _ = tx.send(());
-
-            rx.await.map(Ack::publish).map_err(|_| SendPacketError::Disconnected)
-        }
+            self.shared
+                .wait_publish_response(idx, AckType::Publish, self.packet, chunk)
+                .inspect(|_| {
+                    let _ = tx.send(());
+                })
+        };
+        async move { rx?.await.map(Ack::publish).map_err(|_| SendPacketError::Disconnected) }
     }
 
     /// Send publish packet with `QoS 2`
